@@ -47,6 +47,27 @@ type numRun struct {
 	states map[uint64]struct{}
 	// first result of the scenario (for order-invariance)
 	first map[string]uint64
+	// unordered: the rev-list invocation of the code under test carries no
+	// ordering flag (learnt from the first execution's log)
+	unordered bool
+	probed    bool
+}
+
+// space completes an order space with what was learnt about rev-list's flags.
+func (n *numRun) space(sp gen.OrderSpace, sc *gen.Scenario) gen.OrderSpace {
+	if !n.probed {
+		install()
+		env := modelgit.NewEnv(sc.Repo, &modelgit.Plan{})
+		res := inproc.Scan(env, inproc.SimpleGrouper{Walk: sc.Walks}, sc.Explicit, sizes.NameStyleNone, nil)
+		for _, inv := range res.Log {
+			if inv.Kind == modelgit.KRevList {
+				n.probed = true
+				n.unordered = !modelgit.RevListOrdered(inv.Args)
+			}
+		}
+	}
+	sp.CommitsUnordered = n.unordered
+	return sp
 }
 
 func newNumRun(sh *explore.Shard, prop string, owned []string) *numRun {
@@ -198,7 +219,7 @@ func c03Worker(sh *explore.Shard) {
 				l := defaultListing(sc)
 				n.beginScenario()
 				n.maybeConform(sc, idx, 23)
-				cnt, _ := gen.Orders(sc.Repo, l, gen.OrderSpace{Commits: true}, func(order []mrepo.ID) bool {
+				cnt, _ := gen.Orders(sc.Repo, l, n.space(gen.OrderSpace{Commits: true}, sc), func(order []mrepo.ID) bool {
 					n.one(sc, order, sizes.NameStyleNone, true, nil)
 					return true
 				})
@@ -552,7 +573,7 @@ func c02Worker(sh *explore.Shard) {
 				l := defaultListing(sc)
 				n.beginScenario()
 				n.maybeConform(sc, idx, 29)
-				cnt, _ := gen.Orders(r, l, gen.OrderSpace{Commits: true}, func(order []mrepo.ID) bool {
+				cnt, _ := gen.Orders(r, l, n.space(gen.OrderSpace{Commits: true}, sc), func(order []mrepo.ID) bool {
 					n.one(sc, order, sizes.NameStyleNone, true, nil)
 					return true
 				})
@@ -682,7 +703,7 @@ func c09Worker(sh *explore.Shard) {
 		if sh.Tier == "thorough" {
 			max = 50000
 		}
-		cnt, capped := gen.Orders(r, l, gen.OrderSpace{Commits: true, Trees: true, Tags: true, Blobs: true, Max: max}, func(order []mrepo.ID) bool {
+		cnt, capped := gen.Orders(r, l, n.space(gen.OrderSpace{Commits: true, Trees: true, Tags: true, Blobs: true, Max: max}, sc), func(order []mrepo.ID) bool {
 			n.one(sc, order, sizes.NameStyleNone, true, nil)
 			return true
 		})
@@ -705,6 +726,66 @@ func c09Worker(sh *explore.Shard) {
 		}
 		return true
 	})
+	// root-order family: references aliasing the same object, every subset of
+	// the references as selection, every permutation of the reference listing,
+	// every order of the ROOT arguments
+	for shape := 0; shape < 4 && !sh.Expired(); shape++ {
+		for tagcfg := 0; tagcfg < 3; tagcfg++ {
+			idx++
+			if !sh.Mine(idx) {
+				continue
+			}
+			r := mrepo.New()
+			lv := gen.AddLeaves(r)
+			t0 := r.AddTree([]mrepo.Entry{{Mode: 0o100644, Name: "a", Child: lv.BlobA}})
+			t1 := r.AddTree([]mrepo.Entry{{Mode: 0o40000, Name: "d", Child: t0}, {Mode: 0o100755, Name: "x", Child: lv.BlobB}})
+			c0 := r.AddCommit(mrepo.CommitSpec{Tree: t0, Time: gen.T0, Message: "c0\n"})
+			var ps []mrepo.ID
+			if shape&1 != 0 {
+				ps = append(ps, c0)
+			}
+			c1 := r.AddCommit(mrepo.CommitSpec{Tree: t1, Parents: ps, Time: gen.T0 + 100, Message: "c1\n"})
+			r.SetRef("refs/heads/main", c1)
+			r.SetRef("refs/tags/alias", c1) // same object as main
+			if shape&2 != 0 {
+				r.SetRef("refs/heads/old", c0)
+			} else {
+				r.SetRef("refs/heads/old", c1)
+			}
+			var tg mrepo.ID
+			switch tagcfg {
+			case 1:
+				tg = r.AddTag(mrepo.TagSpec{Target: c1, Name: "v", Time: gen.T0, Message: "v\n"})
+			case 2:
+				tg = r.AddTag(mrepo.TagSpec{Target: t0, Name: "v", Time: gen.T0, Message: "v\n"})
+			}
+			if tg != "" {
+				r.SetRef("refs/tags/v", tg)
+				r.SetRef("refs/tags/v2", tg)
+			}
+			nr := len(r.Refs)
+			n.beginScenario()
+			for mask := uint(1); mask < 1<<uint(nr); mask++ {
+				walk := map[string]bool{}
+				for i, ref := range r.Refs {
+					if mask&(1<<uint(i)) != 0 {
+						walk[ref.Name] = true
+					}
+				}
+				for _, ex := range [][][2]string{nil, {{"c1", string(c1)}, {"t0", string(t0)}}, {{"t0", string(t0)}, {"c1", string(c1)}, {"c1again", string(c1)}}} {
+					sc := &gen.Scenario{Repo: r, WalkRefs: walk, Explicit: ex, Desc: fmt.Sprintf("rootorder shape=%d tagcfg=%d refs=%b explicit=%d", shape, tagcfg, mask, len(ex))}
+					l := defaultListing(sc)
+					n.first = nil
+					explore.Perm(nr, func(p []int) bool {
+						n.one(sc, l.IDs, sizes.NameStyleNone, true, append([]int(nil), p...))
+						return true
+					})
+					sh.C.Nontrivial++
+				}
+			}
+			sh.C.Sample(4, map[string]any{"desc": fmt.Sprintf("rootorder shape=%d tagcfg=%d", shape, tagcfg), "refs": nr, "what": "every subset of refs x every permutation of the reference listing x 3 ROOT lists"})
+		}
+	}
 	n.end()
 }
 
